@@ -8,8 +8,9 @@ structure St where
   wgCount : Nat := 0
   wg : WaitSt := {}
   wgTask : Option String := none
-  lb : WaitSt := {}
-  lbTask : Option String := none
+  lbCond : Bool := false                      -- the load balancer has a peer
+  lbDeact : Bool := false                     -- `deactivate()` has been called
+  lbW : List (String × WaitSt) := []          -- tasks inside `wait_for_connection()`
   /-- scripted tasks: remaining op starts and results so far -/
   scripts : List (String × (List Pc × List String)) := []
   /-- scheduler-level status of each task: "new" | "blocked" | "run" | "done" (a future can only be dropped when
@@ -62,8 +63,11 @@ def runOp0 (st : St) (p : List String) : St × String :=
   | ["wg", "done"] =>
     let c := st.wgCount - 1
     ({ st with wgCount := c, wg := if c == 0 then st.wg.signal else st.wg }, "ok")
-  | ["lb", "new"] => ({ st with lb := {}, lbTask := none }, "ok")
-  | ["lb", "add", _] => ({ st with lb := st.lb.signal }, "ok")
+  | ["lb", "new"] => ({ st with lbCond := false, lbDeact := false, lbW := [] }, "ok")
+  | ["lb", "add", _] => ({ st with lbCond := true, lbW := st.lbW.map fun e => (e.1, e.2.signal) }, "ok")
+  | ["lb", "deactivate"] =>
+    -- sets the flag, then `notify_waiters()`: every registered waiter is woken
+    ({ st with lbDeact := true, lbW := st.lbW.map fun e => (e.1, { e.2 with notified := e.2.notified || e.2.registered }) }, "ok")
   | "task" :: tid :: kind :: rest =>
     let mk (pc : Pc) : St × String :=
       ({ st with rpq := { st.rpq with tasks := (st.rpq.tasks.filter (·.1 != tid)) ++ [(tid, pc)] } }, "ok")
@@ -79,16 +83,27 @@ def runOp0 (st : St) (p : List String) : St × String :=
         ({ st with rpq := { st.rpq with tasks := (st.rpq.tasks.filter (·.1 != tid)) ++ [(tid, first)] },
                    scripts := (st.scripts.filter (·.1 != tid)) ++ [(tid, (restOps, []))] }, "ok")
       | [] => (st, "bad-op")
-    | "wgwait", _ => ({ st with lbTask := (if st.lbTask == some tid then none else st.lbTask), wgTask := some tid, wg := { st.wg with pc := 0, registered := false, notified := false } }, "ok")
-    | "lbwait", _ => ({ st with wgTask := (if st.wgTask == some tid then none else st.wgTask), lbTask := some tid, lb := { st.lb with pc := 0, registered := false, notified := false } }, "ok")
+    | "wgwait", _ => ({ st with lbW := st.lbW.filter (·.1 != tid), wgTask := some tid, wg := { st.wg with pc := 0, registered := false, notified := false } }, "ok")
+    | "lbwait", _ => ({ st with wgTask := (if st.wgTask == some tid then none else st.wgTask),
+                                lbW := st.lbW.filter (·.1 != tid) ++ [(tid, {})] }, "ok")
     | _, _ => (st, "bad-op")
   | ["step", tid] =>
     if st.wgTask == some tid then
       let r := st.wg.stepRegisterFirst
       ({ st with wg := r.1 }, showOut (relabel "wg" r.2))
-    else if st.lbTask == some tid then
-      let r := st.lb.stepRegisterFirst
-      ({ st with lb := r.1 }, showOut (relabel "lb" r.2))
+    else if (st.lbW.find? (·.1 == tid)).isSome then
+      -- `wait_for_connection`: register, look at the deactivation flag, then at the peers, then wait
+      let w := ((st.lbW.find? (·.1 == tid)).map (·.2)).getD {}
+      let decide (w : WaitSt) : WaitSt × StepOut :=
+        if st.lbDeact then ({ w with pc := 2 }, .done "err:InvalidState")
+        else if st.lbCond then ({ w with pc := 2 }, .done "ok")
+        else ({ w with pc := 1, notified := false }, .at "checked")
+      let r : WaitSt × StepOut :=
+        match w.pc with
+        | 0 => decide { w with registered := true }
+        | 1 => if w.notified then decide w else (w, .blocked)
+        | _ => (w, .done "ok")
+      ({ st with lbW := st.lbW.map fun e => if e.1 == tid then (tid, r.1) else e }, showOut (relabel "lb" r.2))
     else match st.scripts.find? (·.1 == tid) with
       | some (_, (rem, acc)) =>
         if (st.rpq.task? tid).isNone then (st, "no-task") else
@@ -103,8 +118,10 @@ def runOp0 (st : St) (p : List String) : St × String :=
   | ["cancel", tid] =>
     if st.wgTask == some tid then
       if st.wg.pc == 2 then (st, "done(ok)") else ({ st with wg := { st.wg with pc := 2 } }, "done(cancelled)")
-    else if st.lbTask == some tid then
-      if st.lb.pc == 2 then (st, "done(ok)") else ({ st with lb := { st.lb with pc := 2 } }, "done(cancelled)")
+    else if (st.lbW.find? (·.1 == tid)).isSome then
+      let w := ((st.lbW.find? (·.1 == tid)).map (·.2)).getD {}
+      if w.pc == 2 then (st, "done(ok)")
+      else ({ st with lbW := st.lbW.map fun e => if e.1 == tid then (tid, { e.2 with pc := 2 }) else e }, "done(cancelled)")
     else
       let r := st.rpq.cancel tid
       ({ st with rpq := r.1, scripts := st.scripts.map fun e => if e.1 == tid then (tid, ([], e.2.2)) else e },
